@@ -105,7 +105,20 @@ def _do_replay(mod, pid, path):
     if "-OO" in flags and sys.flags.optimize < 2:
         # recorded by the optimised-interpreter pass: replay it in the same kind of interpreter
         os.execv(sys.executable, [sys.executable, "-OO", "-B", "-m", "mc.cli", pid, "--replay", path])
-    what = mod.replay(evidence.unjson(doc["case"]))
+    case = evidence.unjson(doc["case"])
+    if isinstance(case, dict) and case.get("import_module"):
+        try:
+            loader.lib(case["import_module"])
+            what = None
+        except loader.ImportViolation as e:
+            what = f"importing {e.module} raises {e.text}"
+    elif isinstance(case, dict) and case.get("threads"):
+        from . import threads
+
+        loader.install_shims()
+        what = threads.replay_case(pid, case)
+    else:
+        what = mod.replay(case)
     if what:
         print(f"replay reproduces: property={pid} key={doc.get('key')}\n  {what}")
         print(f"VIOLATION property={pid} replay={path}")
@@ -125,9 +138,23 @@ def _do_check(mod, pid, tier, seed, optpass=False):
 
 
 def _do_check_inner(mod, pid, tier, seed, optpass, child, t0):
-    res = mod.run(tier, seed)
+    try:
+        res = mod.run(tier, seed)
+    except loader.ImportViolation as e:
+        flags = " (interpreter started with -OO)" if sys.flags.optimize >= 2 else ""
+        res = {
+            "coverage": {"evaluations": 0, "distinct_nontrivial": 0, "exhaustive": False, "module_not_importable": e.module},
+            "violations": [{"key": f"import:{e.module}", "what": f"the module under test cannot be imported{flags}: importing {e.module} raises {e.text}", "case": {"import_module": e.module}}],
+        }
     coverage = res["coverage"]
-    violations = res.get("violations", [])
+    violations = list(res.get("violations", []))
+    # E6: the properties about hand-written classes and functions are also explored under thread schedules
+    from . import threadcases, threads
+
+    if pid in threadcases._CASES and "module_not_importable" not in coverage:
+        tcov, tviol = threads.run_cases(pid, tier)
+        coverage = dict(coverage, thread_schedules=tcov)
+        violations += tviol
     known = findings.known_keys(pid)
 
     # one entry per canonical key
